@@ -56,7 +56,7 @@ PROPS = {
     "C08": dict(build="plain", runs_quick=30000, budget_quick=150, runs_thorough=600000, budget_thorough=900, rule=LAYOUT_RULE,
                 assumptions=["armed after makeFeasible() followed by at least one completed iteration, nothing reported unsatisfiable",
                              "user constraints and clusters are generated from a non-overlapping witness grid"]),
-    "C15": dict(build="san", also_build="plain", also_runs_quick=20000, also_budget_quick=15, also_runs_thorough=600000, also_budget_thorough=600, runs_quick=4000, budget_quick=25, shrink_budget=60, runs_thorough=150000, budget_thorough=1200, rule=MIX_RULE, timeout_quick=60,
+    "C15": dict(build="san", also_build="plain", also_runs_quick=20000, also_budget_quick=15, also_runs_thorough=600000, also_budget_thorough=600, runs_quick=6000, budget_quick=45, shrink_budget=60, runs_thorough=150000, budget_thorough=1200, rule=MIX_RULE, timeout_quick=60,
                 assumptions=["ASan+UBSan (recoverable) on all five libraries and the harness, LeakSanitizer check at the end of every run, library assertions as exceptions, watchdog",
                              "allocation failure is not injected (the property is about valid use)",
                              "only direct leaks are classified; leaks in a run in which the library threw an assertion are attributed to that assertion"]),
